@@ -584,4 +584,15 @@ MUTANTS = [
       "    pub fn remove_domain(mut self, x: &LTerm<U, E>) -> SResult<U, E> {",
       "    pub fn set_domain(self, x: &LTerm<U, E>, d: Rc<FiniteDomain>) -> SResult<U, E> {\n        self.update_var_domain(x, d)\n    }\n\n    pub fn remove_domain(mut self, x: &LTerm<U, E>) -> SResult<U, E> {",
       {"C23": "callers"}),
+    M("c10-cell-in-goal", ["C10"], "src/operator/conda.rs",
+      "    // Next conda clause\n    next: Goal<U, E>,\n}", "    // Next conda clause\n    next: Goal<U, E>,\n    hits: std::cell::Cell<usize>,\n}",
+      {"C10": "interior-mutability"}, more=[("src/operator/conda.rs", "next = Goal::dynamic(Rc::new(Conda { first, rest, next }));", "next = Goal::dynamic(Rc::new(Conda { first, rest, next, hits: std::cell::Cell::new(0) }));")]),
+    M("c10-as-ptr-write-in-constraint", ["C10", "C11"], "src/relation/clpfd/distinctfd.rs",
+      "        let mut mself = Rc::make_mut(&mut self);", "        let mut mself = unsafe { &mut *(Rc::as_ptr(&self) as *mut Self) };",
+      {"C10": "no-back-door", "C11": ""}),
+    M("c10-refcell-in-closure", ["C10"], "src/relation/eq.rs",
+      "        match state.unify(&self.u, &self.v) {", "        let seen = std::rc::Rc::new(std::cell::RefCell::new(0usize));\n        let s2 = seen.clone();\n        let bump = move || { *s2.borrow_mut() += 1; };\n        bump();\n        match state.unify(&self.u, &self.v) {",
+      {"C10": "interior-mutability"}),
+    M("c11-project-shallow-walk", ["C11"], "src/operator/project.rs",
+      "v.project(|x| state.smap_ref().walk_star(x));", "v.project(|x| state.smap_ref().walk(x).clone());", {"C11": "what-is-projected"}),
 ]
